@@ -106,6 +106,10 @@ impl<F: Float, D: Data<Elem = F>, DF: Distance<F>, N: NearestNeighbour>
     Transformer<&ArrayBase<D, Ix2>, Array1<Option<usize>>> for DbscanValidParams<F, DF, N>
 {
     fn transform(&self, observations: &ArrayBase<D, Ix2>) -> Array1<Option<usize>> {
+        // Some nearest neighbour indices (the default k-d tree) need every row to be contiguous
+        // in memory; records in any other layout are copied into standard layout first
+        let observations = observations.as_standard_layout();
+        let observations = &observations;
         let mut cluster_memberships = Array1::from_elem(observations.nrows(), None);
         let mut current_cluster_id = 0;
         // Tracks whether a value is in the search queue to prevent duplicates
